@@ -22,13 +22,20 @@ def generate(rng, tier):
         yield R.gen_case(rng, tier)
 
 
+def writer_threads(case):
+    """F7/F8/F11/F13 need two publishers inside `publish` at once: with ONE writer thread the multi-producer sequencer releases
+    everything (c06_multi_single_writer_*), so a stranded sequence there is not the known finding"""
+    m = re.search(r'writers=(\S+)', case.header)
+    return len(m.group(1).split('|')) if m else 1
+
+
 def signatures(case, lines):
     out = []
     for l in lines:
         m = re.search(r'delivered≠published kind=(\S+) missing=\[([^\]]*)\] extra=\[\] producer=(\w+) lwRegressed=(\w+)', l)
         if m and m.group(3) == 'single' and m.group(2).strip() == '0':
             out.append({'producer': 'single', 'missing': [0]})
-        elif m and m.group(3) == 'multi' and m.group(1) == 'stranded-tail':
+        elif m and m.group(3) == 'multi' and m.group(1) == 'stranded-tail' and writer_threads(case) >= 2:
             out.append({'producer': 'multi', 'kind': 'stranded-tail', 'lw_regressed': m.group(4) == 'true'})
         else:
             out.append(None)
